@@ -18,6 +18,11 @@ package main
 //                        evaluates the subject exactly once per match
 //   recursive-bindings   recursive functions whose case body uses its bindings AFTER re-entering the same match
 //                        (tree folds, recursion on numbers, mutual recursion, array patterns with 1-4 names), depth 0-50
+//   binding-names        pattern names of every lexical shape ($k $1x $index $print _ length unknown, bytes >= 0x80, 500-byte
+//                        names) that mean nothing / a global / a parameter / $index / an enclosing binding outside the case,
+//                        read (directly, through a called function, after a nested rebinding, as n[0] n.a n.length() n + 1) and
+//                        written (= ++ += *= -=, as a for-in loop or index variable, directly or in a called function);
+//                        what is not a name (keywords, a$b, 1x) is a syntax error; oracle: reference with a three-level environment
 
 import (
 	"fmt"
@@ -1943,6 +1948,681 @@ func init() {
 		Gen: func(r *rand.Rand, tier string, emit func(Case)) {
 			for i, n := 0, tierN(tier, 2500, 30000); i < n; i++ {
 				emit(c19NullResultCase(r))
+			}
+		},
+	})
+}
+
+// ---------------------------------------------------------------- binding names of every lexical shape
+//
+// A pattern identifier is whatever the lexer hands out as an Ident token: `$` followed by
+// letters / digits / underscores ($k, $1x, $0, $_, $print, $index, $file -- only the bare `$`
+// is a token of its own), a leading underscore, names that are methods, type names, builtins or
+// functions elsewhere, keyword lookalikes, bytes >= 0x80 that are Latin-1 letters, very long
+// names. Whatever the name looks like, and whatever it means outside the case (nothing, a
+// global, a parameter, a runtime variable like $index, the binding of an enclosing match), the
+// case body must see the binding: read directly, through a function called from the body
+// (scoping is dynamic), after a nested match that rebinds the same name, and written (the
+// binding is the subject's own cell). A name the matching alternative did not bind means what it
+// means outside: the outer value, unset for an ordinary name, a runtime error for a `$`-name.
+
+var c19bnDollar = []string{"$k", "$a", "$b", "$x", "$1x", "$1", "$0", "$00", "$9a_", "$_", "$__", "$_1", "$x_9", "$K", "$index", "$file", "$index", "$file",
+	"$indexx", "$inde", "$Index", "$INDEX", "$files", "$File", "$print", "$if", "$in", "$is", "$for", "$BEGIN", "$END", "$match", "$null", "$true", "$false",
+	"$function", "$return", "$next", "$exit", "$length", "$printf", "$json", "$gl", "$f", "$s", "$r", "$unknown", "$\xc3\xaa", "$\xe9t\xe9", "$9\xff", "$\xb5"}
+
+var c19bnPlain = []string{"_", "_", "__", "_x", "_1", "_9z", "_k", "x_", "a", "b", "i", "k", "n", "q", "v", "z", "A", "Z", "length", "push", "pop", "popfirst",
+	"contains", "sort", "pluck", "split", "lower", "upper", "floor", "ceil", "round", "unknown", "string", "number", "array", "object", "bool", "regex",
+	"Print", "PRINT", "printx", "print_", "begin", "Begin", "end", "End", "BEGIN_", "iff", "In", "IN", "IS", "Is", "nul", "Null", "NULL", "True", "matcher", "Match",
+	"nextt", "exitt", "fo", "whil", "breakk", "elsee", "functio", "returnn", "index", "file", "dollar", "a1", "x2y", "k9", "\xc3\xaa", "\xe9", "caf\xe9", "\xb5m", "\xaa\xba"}
+
+type c19bnCase struct {
+	pats   []*c19Pat
+	show   []string
+	kind   int    // 0: expression body [names]; 1: block printing the names; 2: expression body rd<i>(), a function reading the names; 3: block with a nested match rebinding a name first
+	assign string // block bodies: the name written to
+	wop    int    // how: see c19bnWrite
+	viaFn  bool   // the assignment happens in a function called from the body
+	rebind string
+	twice  bool           // expression body [n, n]
+	use    map[string]int // expression body: how a name is used (0 as it is, 1 n[0], 2 n.a, 3 n.length(), 4 n + 1, 5 n * 2): by what it holds
+}
+
+type c19bnGen struct {
+	r     *rand.Rand
+	fresh int
+	nval  int
+	fnOK  bool
+	fn    bool
+	rec   bool
+	used  []string
+	again []string // the names of the case's first alternative: the second one mostly binds the same ones
+}
+
+func (g *c19bnGen) name() string {
+	r := g.r
+	if len(g.again) > 0 && chance(r, 0.8) {
+		return pick(r, g.again)
+	}
+	if len(g.used) > 0 && chance(r, 0.15) {
+		// the same name again: in the same pattern (the later binding wins), in another alternative or case
+		if n := pick(r, g.used); g.fnOK || n != "f" && n != "printf" && n != "json" && n != "num" {
+			return n
+		}
+	}
+	var n string
+	switch k := r.Intn(20); {
+	case k < 9:
+		n = pick(r, c19bnDollar)
+	case k < 15:
+		n = pick(r, c19bnPlain)
+	case k < 17:
+		outer := []string{"gl", "gn", "gl", "gn"}
+		if g.fn {
+			outer = append(outer, "pa", "$pb", "pa", "$pb", "$pb")
+		}
+		if g.rec {
+			outer = append(outer, "$index", "$file")
+		}
+		if g.fnOK {
+			outer = append(outer, "f", "printf", "json", "num")
+		}
+		n = pick(r, outer)
+	case k < 18:
+		n = pick(r, []string{"$", "", "$L_", "_", "\xe9"}) + strings.Repeat(pick(r, []string{"ab_9", "x", "Z0", "\xc3\xaa_"}), 20+r.Intn(120))
+	default:
+		g.fresh++
+		n = fmt.Sprintf("%sx%d", pick(r, []string{"", "$", "_"}), g.fresh)
+	}
+	g.used = append(g.used, n)
+	return n
+}
+
+var c19bnLits = []c19Lit{{"0", float64(0), false}, {"1", float64(1), false}, {"2.5", 2.5, false}, {`"a"`, "a", false}, {`'1'`, "1", false}, {`""`, "", false},
+	{"true", true, false}, {"false", false, false}, {"null", nil, false}}
+
+func (g *c19bnGen) pat(depth int) *c19Pat {
+	r := g.r
+	k := r.Intn(10)
+	if depth == 0 && k < 6 || depth > 0 && depth < 3 && k < 3 {
+		p := &c19Pat{kind: "arr"}
+		n := r.Intn(4)
+		if depth == 0 {
+			n = 1 + r.Intn(4)
+		}
+		for i := 0; i < n; i++ {
+			p.items = append(p.items, g.pat(depth+1))
+		}
+		return p
+	}
+	if k == 9 && depth > 0 {
+		return &c19Pat{kind: "lit", lit: pick(r, c19bnLits)}
+	}
+	return &c19Pat{kind: "ident", name: g.name()}
+}
+
+// a subject the pattern matches; every name gets a value of its own
+func (g *c19bnGen) subjFor(p *c19Pat) interface{} {
+	switch p.kind {
+	case "lit":
+		return p.lit.val
+	case "arr":
+		a := make([]interface{}, len(p.items))
+		for i, it := range p.items {
+			a[i] = g.subjFor(it)
+		}
+		return a
+	}
+	g.nval++
+	switch g.r.Intn(8) {
+	case 0:
+		return fmt.Sprintf("v%d", g.nval)
+	case 1:
+		return []interface{}{float64(100 + g.nval)}
+	case 2:
+		return map[string]interface{}{"a": float64(g.nval)}
+	case 3:
+		return pick(g.r, []interface{}{nil, true, false, ""})
+	}
+	return float64(10 + g.nval)
+}
+
+// the ways a case body writes to a name, and what the name holds afterwards
+func c19bnWrite(wop int, n string) string {
+	switch wop {
+	case 1:
+		return n + " = [" + n + ", 1]"
+	case 2:
+		return "for (" + n + " in [7, \"L\"]) { }" // the loop variable is the binding
+	case 3:
+		return "for (zq, " + n + " in [\"p\", \"q\"]) { }" // the index variable is
+	case 4:
+		return n + "++"
+	case 5:
+		return n + " += 5"
+	case 6:
+		return n + " *= 2"
+	case 7:
+		return n + " -= 1" // (not `--n`: after a line break it would be taken for the postfix operator of the line before)
+	}
+	return n + " = \"W\""
+}
+
+func c19bnWritten(wop int, old interface{}) interface{} {
+	f, _ := old.(float64)
+	switch wop {
+	case 1:
+		return []interface{}{old, float64(1)}
+	case 2:
+		return "L"
+	case 3:
+		return float64(1)
+	case 4:
+		return f + 1
+	case 5:
+		return f + 5
+	case 6:
+		return f * 2
+	case 7:
+		return f - 1
+	}
+	return "W"
+}
+
+// what is NOT an identifier: keywords, a `$` inside or after a name, a digit first, a blank
+// after the `$`: the program is rejected before anything runs
+var c19bnNotNames = []string{"print", "if", "else", "for", "while", "in", "match", "break", "continue", "next", "exit", "is", "function", "return",
+	"BEGIN", "END", "BEGINFILE", "ENDFILE", "a$b", "k$", "$$", "$$k", "$k$", "1x", "9_", "$ k", "a b", "_ _", "$a $b", "$.", "x\xc3\xa9", "\xa9", "$\xd7"}
+
+func c19bnIllFormed(r *rand.Rand, emit func(Case)) {
+	bad := pick(r, c19bnNotNames)
+	good := func() string {
+		return pick(r, []string{"$k", "$1x", "_", "a", "length", "$index", "printx", "$print"})
+	}
+	var pat, subj string
+	switch r.Intn(4) {
+	case 0:
+		pat, subj = bad, "1"
+	case 1:
+		pat, subj = "["+good()+", "+bad+"]", "[1, 2]"
+	case 2:
+		pat, subj = "["+bad+", ["+good()+"]]", "[1, [2]]"
+	default:
+		pat, subj = "7, [["+bad+"], "+good()+"]", "[[1], 2]"
+	}
+	if chance(r, 0.4) {
+		pat = good() + " => 0,\n    " + pat // a case before it
+	}
+	prog := "BEGIN {\n  print \"before\"\n  r = match (" + subj + ") {\n    " + pat + " => \"body\"\n  }\n  print r\n}\n"
+	emit(Case{Req: RunReq(prog, nil, nil, false), Fields: []string{"class", "out", "line", "col"}, Meta: metaProg(prog, "not a name", bad),
+		Oracle: func(i Resp) string {
+			if i["class"] != "syntax" || len(i.Bytes("out")) != 0 {
+				return fmt.Sprintf("a pattern that is not an identifier (%q) must be a syntax error before anything runs: class %s, output %q", bad, i["class"], i.Bytes("out"))
+			}
+			return ""
+		},
+		NonTrivial: func(i Resp) bool { return i["class"] == "syntax" }})
+}
+
+func c19bnNames(r *rand.Rand, emit func(Case)) {
+	if chance(r, 0.03) {
+		c19bnIllFormed(r, emit)
+		return
+	}
+	g := &c19bnGen{r: r, fn: chance(r, 0.3), rec: chance(r, 0.4)}
+	nest := chance(r, 0.3)
+	ncase := 1 + r.Intn(3)
+	target := r.Intn(ncase)
+	var cases []c19bnCase
+	var subj interface{}
+	allNames := map[string]bool{}
+	for i := 0; i < ncase; i++ {
+		var k c19bnCase
+		m := 1
+		if chance(r, 0.35) {
+			m = 2
+		}
+		g.fnOK = m == 1
+		for j := 0; j < m; j++ {
+			g.again = nil
+			if j > 0 && chance(r, 0.6) {
+				first := map[string]bool{}
+				k.pats[0].names(first)
+				for n := range first {
+					g.again = append(g.again, n)
+				}
+				sort.Strings(g.again)
+			}
+			p := g.pat(0)
+			if i < target && p.kind == "ident" && chance(r, 0.85) {
+				p = &c19Pat{kind: "arr", items: []*c19Pat{p, g.pat(1)}}
+			}
+			k.pats = append(k.pats, p)
+		}
+		if i == target {
+			subj = g.subjFor(k.pats[r.Intn(m)])
+		}
+		names := map[string]bool{}
+		for _, p := range k.pats {
+			p.names(names)
+		}
+		for n := range names {
+			k.show = append(k.show, n)
+			allNames[n] = true
+		}
+		sort.Strings(k.show)
+		k.kind = r.Intn(4)
+		if len(k.show) == 0 {
+			k.kind = 1
+		}
+		if (k.kind == 1 || k.kind == 3) && len(k.show) > 0 && chance(r, 0.5) {
+			k.assign = pick(r, k.show)
+			k.viaFn = chance(r, 0.4)
+		}
+		if k.kind == 3 {
+			k.rebind = pick(r, k.show)
+		}
+		k.twice = k.kind == 0 && len(k.show) == 1 && chance(r, 0.5)
+		cases = append(cases, k)
+	}
+	if chance(r, 0.12) {
+		// no longer what the target case was made for
+		if a, ok := subj.([]interface{}); ok && chance(r, 0.7) {
+			subj = append(append([]interface{}{}, a...), float64(5))
+		} else {
+			subj = []interface{}{subj, "extra"}
+		}
+	}
+	stext, ok := c19Expr(subj)
+	if !ok {
+		return
+	}
+	var nl []string
+	for n := range allNames {
+		nl = append(nl, n)
+	}
+	sort.Strings(nl)
+
+	// what the names mean outside the cases
+	base := map[string]interface{}{"gl": "G", "gn": float64(42), "f": c19Fn{}, "printf": c19Native{}, "json": c19Native{}, "num": c19Native{}}
+	if g.fn {
+		base["pa"] = "A"
+		base["$pb"] = float64(7)
+	}
+	if g.rec {
+		base["$index"] = float64(1)
+		base["$file"] = "in.json"
+	}
+	var nestMap map[string]interface{}
+	var nestNames []string
+	if nest && len(nl) > 0 {
+		nestMap = map[string]interface{}{}
+		for i := 0; i < 2; i++ {
+			n := pick(r, nl)
+			nestNames = append(nestNames, n)
+			nestMap[n] = fmt.Sprintf("o%d", i+1) // the same name twice: the later binding wins
+		}
+	}
+
+	// ---- the reference: which case, which bindings
+	var want strings.Builder
+	wantClass := "ok"
+	cur := subj
+	selected := -1
+	var bind map[string][]int
+find:
+	for i, k := range cases {
+		for _, p := range k.pats {
+			b := map[string][]int{}
+			switch c19Match(p, subj, nil, b) {
+			case -1:
+				wantClass = "runtime"
+				break find
+			case 1:
+				selected, bind = i, b
+				break find
+			}
+		}
+	}
+	// get / set: innermost first -- the case's bindings, the enclosing match's, the rest of the program
+	get := func(n string) (interface{}, bool) {
+		if p, ok := bind[n]; ok {
+			return c19At(cur, p), true
+		}
+		if v, ok := nestMap[n]; ok {
+			return v, true
+		}
+		if v, ok := base[n]; ok {
+			return v, true
+		}
+		if strings.HasPrefix(n, "$") {
+			return nil, false // unknown variable
+		}
+		return c19Unset{}, true
+	}
+	// how the selected case uses a name and writes to it depends on what the name holds
+	for i := range cases {
+		k := &cases[i]
+		if k.kind == 0 && !k.twice && chance(r, 0.5) {
+			k.use = map[string]int{}
+			for _, n := range k.show {
+				if i != selected {
+					k.use[n] = r.Intn(6)
+					continue
+				}
+				switch old, _ := get(n); x := old.(type) {
+				case []interface{}:
+					if len(x) > 0 {
+						k.use[n] = 1
+					}
+				case map[string]interface{}:
+					if _, has := x["a"]; has {
+						k.use[n] = 2
+					}
+				case string:
+					k.use[n] = 3
+				case float64:
+					k.use[n] = 4 + r.Intn(2)
+				}
+			}
+		}
+		if k.assign == "" {
+			continue
+		}
+		k.wop = r.Intn(8)
+		if i == selected {
+			switch old, _ := get(k.assign); old.(type) {
+			case float64:
+			case c19Unset:
+				k.wop = pick(r, []int{0, 2, 3})
+			default:
+				k.wop = r.Intn(4)
+			}
+		}
+	}
+
+	// ---- the program
+	var sb strings.Builder
+	sb.WriteString("function f(a) { return a }\n")
+	for i, k := range cases {
+		if k.kind == 2 {
+			fmt.Fprintf(&sb, "function rd%d() { return [%s] }\n", i, strings.Join(k.show, ", "))
+		}
+		if k.assign != "" && k.viaFn {
+			fmt.Fprintf(&sb, "function wr%d() { %s }\n", i, c19bnWrite(k.wop, k.assign))
+		}
+	}
+	var files []File
+	head, tail := "BEGIN {\n", "}\n"
+	sline := "  s = " + stext + "\n"
+	if g.rec {
+		js, ok := c19JSON(subj)
+		if !ok {
+			return
+		}
+		files = []File{{Name: "in.json", Data: []byte(`[0, {"s": ` + js + `}]`)}}
+		head = "$index == 1 {\n"
+		sline = "  s = $.s\n"
+	}
+	if g.fn {
+		tail = "}\n" + head + "  gl = \"G\"; gn = 42\n  w(\"A\", 7)\n}\n"
+		head = "function w(pa, $pb) {\n"
+	} else {
+		head += "  gl = \"G\"; gn = 42\n"
+	}
+	sb.WriteString(head)
+	if len(nl) > 0 && chance(r, 0.3) {
+		// an earlier match that binds the same names leaves nothing behind
+		n1, n2 := pick(r, nl), pick(r, nl)
+		fmt.Fprintf(&sb, "  match ([5, [6]]) { [%s, [%s]] => { print \"p\", %s, %s } }\n", n1, n2, n1, n2)
+		if n1 == n2 {
+			want.WriteString("p 6 6\n")
+		} else {
+			want.WriteString("p 5 6\n")
+		}
+	}
+	sb.WriteString(sline)
+	if nestMap != nil {
+		fmt.Fprintf(&sb, "  match ([\"o1\", \"o2\"]) { [%s, %s] => {\n", nestNames[0], nestNames[1])
+	}
+	sb.WriteString("  r = match (s) {\n")
+	for i, k := range cases {
+		texts := make([]string, len(k.pats))
+		for j, p := range k.pats {
+			texts[j] = p.render()
+		}
+		fmt.Fprintf(&sb, "    %s => ", strings.Join(texts, ", "))
+		block := false
+		switch k.kind {
+		case 0:
+			if k.twice {
+				sb.WriteString("[" + k.show[0] + ", " + k.show[0] + "]")
+			} else {
+				parts := make([]string, len(k.show))
+				for j, n := range k.show {
+					parts[j] = n + []string{"", "[0]", ".a", ".length()", " + 1", " * 2"}[k.use[n]]
+				}
+				sb.WriteString("[" + strings.Join(parts, ", ") + "]")
+			}
+		case 2:
+			fmt.Fprintf(&sb, "rd%d()", i)
+		default:
+			block = true
+			sb.WriteString("{\n")
+			if k.kind == 3 {
+				fmt.Fprintf(&sb, "      print \"i\", match (\"I\") { %s => [%s] }\n", k.rebind, k.rebind)
+			}
+			fmt.Fprintf(&sb, "      print %s\n", strings.Join(append([]string{fmt.Sprintf("\"b%d\"", i)}, k.show...), ", "))
+			if k.assign != "" {
+				if k.viaFn {
+					fmt.Fprintf(&sb, "      wr%d()\n", i)
+				} else {
+					fmt.Fprintf(&sb, "      %s\n", c19bnWrite(k.wop, k.assign))
+				}
+				fmt.Fprintf(&sb, "      print \"a\", %s\n", k.assign)
+			}
+			sb.WriteString("    }")
+		}
+		if i < len(cases)-1 && (!block || chance(r, 0.5)) {
+			sb.WriteString(",")
+		}
+		sb.WriteString("\n")
+	}
+	sb.WriteString("  }\n  print \"r\", r\n  print \"s\", s\n")
+
+	set := func(n string, nv interface{}) bool {
+		if p, ok := bind[n]; ok {
+			cur = c19Replace(cur, p, nv)
+		} else if _, ok := nestMap[n]; ok {
+			nestMap[n] = nv
+		} else if _, ok := base[n]; ok {
+			base[n] = nv
+		} else if strings.HasPrefix(n, "$") {
+			return false
+		}
+		return true // an ordinary name nobody knows: created in the innermost frame, gone afterwards
+	}
+	list := func(ns []string, sep string, quote bool) (string, bool) {
+		parts := make([]string, len(ns))
+		for i, n := range ns {
+			v, ok := get(n)
+			if !ok {
+				return "", false
+			}
+			switch v.(type) {
+			case c19Native:
+				parts[i] = "<nativefunction>"
+			default:
+				parts[i] = c19Pretty(v, quote)
+			}
+		}
+		return strings.Join(parts, sep), true
+	}
+	fail := func() { wantClass = "runtime" }
+	if wantClass == "ok" {
+		rtext := "null"
+		if selected >= 0 {
+			k := cases[selected]
+			switch k.kind {
+			case 0, 2:
+				ns := k.show
+				if k.twice {
+					ns = []string{k.show[0], k.show[0]}
+				}
+				parts := make([]string, len(ns))
+				for j, n := range ns {
+					v, ok := get(n)
+					if !ok {
+						fail()
+						break
+					}
+					switch k.use[n] {
+					case 1:
+						v = v.([]interface{})[0]
+					case 2:
+						v = v.(map[string]interface{})["a"]
+					case 3:
+						v = float64(len(v.(string)))
+					case 4:
+						v = v.(float64) + 1
+					case 5:
+						v = v.(float64) * 2
+					}
+					if _, native := v.(c19Native); native {
+						parts[j] = "<nativefunction>"
+					} else {
+						parts[j] = c19Pretty(v, true)
+					}
+				}
+				rtext = "[" + strings.Join(parts, ", ") + "]"
+			default:
+				if k.kind == 3 {
+					want.WriteString("i [\"I\"]\n")
+				}
+				if l, ok := list(k.show, " ", false); ok {
+					fmt.Fprintf(&want, "b%d", selected)
+					if len(k.show) > 0 {
+						want.WriteString(" " + l)
+					}
+					want.WriteString("\n")
+				} else {
+					fail()
+				}
+				if wantClass == "ok" && k.assign != "" {
+					old, _ := get(k.assign)
+					nv := c19bnWritten(k.wop, old)
+					if !set(k.assign, nv) {
+						fail()
+					} else {
+						// (an ordinary name nobody knows was created in the case's frame by the print above, so wr finds it too)
+						want.WriteString("a " + c19Pretty(nv, false) + "\n")
+					}
+				}
+			}
+		}
+		if wantClass == "ok" {
+			want.WriteString("r " + rtext + "\n")
+			want.WriteString("s " + c19Pretty(cur, false) + "\n")
+		}
+	}
+	bind = nil // the case's frame is gone
+	// afterwards, still inside the enclosing match if there is one
+	after := func(label string, names []string) {
+		var exprs, vals []string
+		for _, n := range names {
+			v, ok := get(n)
+			if !ok {
+				continue
+			}
+			if _, unset := v.(c19Unset); unset {
+				exprs = append(exprs, n+" is unknown")
+				vals = append(vals, "true")
+				continue
+			}
+			exprs = append(exprs, n)
+			l, _ := list([]string{n}, "", false)
+			vals = append(vals, l)
+		}
+		if len(exprs) == 0 {
+			return
+		}
+		fmt.Fprintf(&sb, "  print \"%s\", %s\n", label, strings.Join(exprs, ", "))
+		if wantClass == "ok" {
+			want.WriteString(label + " " + strings.Join(vals, " ") + "\n")
+		}
+	}
+	after("n", nl)
+	zread := func(label string) {
+		var cands []string
+		for _, n := range nl {
+			if _, ok := get(n); !ok {
+				cands = append(cands, n)
+			}
+		}
+		if len(cands) == 0 {
+			return
+		}
+		n := pick(r, cands)
+		fmt.Fprintf(&sb, "  print \"%s\", %s\n", label, n)
+		if wantClass == "ok" {
+			fail() // a `$`-name that means nothing here: unknown variable
+		}
+	}
+	if nestMap != nil {
+		if chance(r, 0.05) {
+			zread("y")
+		}
+		sb.WriteString("  } }\n")
+		nestMap = nil
+		after("o", nestNames[:1+r.Intn(2)])
+	}
+	if chance(r, 0.1) {
+		zread("z")
+	}
+	sb.WriteString(tail)
+	prog := sb.String()
+	emit(Case{Req: RunReq(prog, nil, files, false), Fields: []string{"class", "out"},
+		Meta:       metaProg(prog, "subject", stext, "expected", fmt.Sprintf("case %d of %d, class %s", selected, ncase, wantClass), "names", strings.Join(nl, " ")),
+		Oracle:     c19Oracle(want.String(), wantClass),
+		NonTrivial: func(i Resp) bool { return i["class"] == "ok" || i["class"] == "runtime" }})
+}
+
+var c19bnLaws = []c19Law{
+	{"{ print match ($) { [$k, [$lo, $hi]] => $k + ':' + ($hi - $lo), [a, b] => a + b, $other => 'other ' + $other } }", "w:7\n3\nother 7\n", "ok"},
+	{"{ print match ($) { $other => $other } }", "[\"w\", [3, 10]]\n[1, 2]\n7\n", "ok"},
+	{"{ print $index, match ($) { $index => [$index], $file => 0 }\n print $index, $file }", "0 [[\"w\", [3, 10]]]\n0 in.json\n1 [[1, 2]]\n1 in.json\n2 [7]\n2 in.json\n", "ok"},
+	{"{ print match ($) { $ => $ } }", "[\"w\", [3, 10]]\n[1, 2]\n7\n", "ok"},
+	{"BEGIN { print match (5) { $ => 1 } }", "1\n", "ok"},
+	{"BEGIN { print match (5) { $a => $b } }", "", "runtime"},
+	{"BEGIN { print match (5) { 4, $a => 'x', $b => $a } }", "x\n", "ok"},
+	{"BEGIN { print match (5) { [$a], $b => $a } }", "", "runtime"},
+	{"BEGIN { print match (5) { [a], b => a is unknown } }", "true\n", "ok"},
+	{"BEGIN { print match (5) { $a => { $a = 7; print $a } }\n print 'after'\n print $a }", "7\nnull\nafter\n", "runtime"},
+	{"function rd() { return [$k, q] }\nfunction wr() { $k = 'W'; q = 'V' }\nBEGIN { s = [1, 2]; print match (s) { [$k, q] => { print rd(); wr(); print $k, q } }\n print s, q is unknown }", "[1, 2]\nW V\nnull\n[\"W\", \"V\"] true\n", "ok"},
+	{"BEGIN { print match (1) { $k => match (2) { $k => $k } + $k } }", "3\n", "ok"},
+	{"BEGIN { match ([1, [2]]) { [$k, [$k]] => { print $k } }\n match ([1, [2], 3]) { [$k, [$k], $k] => { print $k } } }", "2\n3\n", "ok"},
+	{"function w($a, b) { return match ([b, $a]) { [$a, b] => [$a, b] } }\nBEGIN { print w(1, 2) }", "[2, 1]\n", "ok"},
+	{"function w($a) { r = match (9) { $a => $a }\n return [r, $a] }\nBEGIN { print w(1) }", "[9, 1]\n", "ok"},
+	{"BEGIN { print match ([1, 2]) { [unknown, string] => [unknown, string, unknown is unknown, string is string, unknown is number] } }", "[1, 2, false, false, true]\n", "ok"},
+	{"BEGIN { print match ([1, 2, 3]) { [length, push, printf] => [length, push, printf, 'ab'.length()] }\n printf('%v\\n', 5) }", "[1, 2, 3, 2]\n5\n", "ok"},
+	{"BEGIN { print match ([1, 2]) { [\xc3\xaa, $\xe9] => [$\xe9, \xc3\xaa] } }", "[2, 1]\n", "ok"},
+	{"{ match ($) { [$index, $file] => { print $index, $file } }\n print $index, $file }", "w [3, 10]\n0 in.json\n1 2\n1 in.json\n2 in.json\n", "ok"},
+}
+
+func init() {
+	register(Family{
+		Name: "binding-names", Prop: "C19",
+		Rule: "identifier patterns whose NAME has every lexical shape the lexer hands out as an identifier: `$`-prefixed ($k $1x $0 $_ $K, $index / $file and near misses, $print $if $BEGIN $match $null ..., $length $printf $gl, `$` + Latin-1 letter bytes), leading / lone underscores, single letters, method / type / builtin / function names (length push sort unknown string printf json num f), keyword lookalikes in other case or with one letter more or less, byte names >= 0x80, names of 40-500 bytes, names that are globals (gl gn), parameters (pa, $pb) of the function the match sits in (30 %), $index / $file of a record rule (40 %), the bindings of an ENCLOSING match (30 %), the same name several times in a pattern / in two alternatives / in two cases; at top level and nested to depth 3 in array patterns beside literal sub-patterns; 1-3 cases of 1-2 alternatives, subject built for one alternative (12 % perturbed so that a later case or none matches); bodies read every name of the case: in an array expression (as it is, or by what it holds n[0] / n.a / n.length() / n + 1 / n * 2), in a block (print), through a function called from the body (dynamic scoping), after a nested match that rebinds one of the names, and write one (n = 'W', n = [n, 1], n++, n += 5, n *= 2, n -= 1, as the loop variable `for (n in ...)` or the index variable `for (zq, n in ...)`; directly or in a called function; the binding is the subject's own cell, so the subject printed afterwards shows the write); 30 %: an earlier match binding two of the same names first (nothing is left behind); a name the matching alternative did not bind means what it means outside (outer value; unset for an ordinary name; runtime error 'unknown variable' for a `$`-name, on read and on write); afterwards r, the subject and every name are printed inside the enclosing match and after it (outer value or `is unknown`), sometimes ending with the read of a `$`-name that means nothing there (runtime error, output kept); 3 %: a pattern that is NOT a name (18 keywords, a$b k$ $$ $$k 1x 9_ `$ k` `a b`, bytes that are not Latin-1 letters) at top level / nested / after another case: syntax error before anything runs (class, line, col compared with the model); plus 19 fixed programs; oracle: reference matcher with binding paths and a three-level environment (case, enclosing match, rest), exact output and class",
+		Gen: func(r *rand.Rand, tier string, emit func(Case)) {
+			for _, l := range c19bnLaws {
+				var files []File
+				if strings.HasPrefix(l.prog, "{") {
+					files = []File{{Name: "in.json", Data: []byte(`[["w", [3, 10]], [1, 2], 7]`)}}
+				}
+				emit(Case{Req: RunReq(l.prog, nil, files, false), Fields: []string{"class", "out"}, Meta: metaProg(l.prog),
+					Oracle: c19Oracle(l.want, l.class), NonTrivial: func(i Resp) bool { return i["class"] == "ok" || i["class"] == "runtime" }})
+			}
+			for i, n := 0, tierN(tier, 4000, 80000); i < n; i++ {
+				c19bnNames(r, emit)
 			}
 		},
 	})
